@@ -1,0 +1,178 @@
+//go:build verif
+
+// Contracts for package webserver, checked by /verif (gvc).  This file
+// contains no declarations; it is compiled only with the verif build tag.
+
+package webserver
+
+//@ -- ------------------------------------------------------------------ conditional requests (C18)
+//@ func scanETag
+//@   safe
+//@   props C18 C12
+//@   modifies nothing
+//@   invariant loop 1 range: start + 1 <= i && i <= len(s) && 0 <= start && start <= 2 && start + 2 <= len(s)
+//@   ensures none: result0 == "" ==> result1 == ""
+//@   ensures some: result0 != "" ==> len(result0) >= 2
+//@
+//@ func etagMatch
+//@   safe
+//@   pure
+//@   props C18 C12
+//@   modifies nothing
+//@   -- C18: no header, no match
+//@   ensures no-header: header == "" ==> !result
+//@   -- C18: a non-existent object (empty tag) matches nothing, not even "*"
+//@   ensures no-object: etag == "" ==> !result
+//@   ensures exact: header != "" && header == etag ==> result
+//@
+//@ iface http.ResponseWriter.WriteHeader
+//@   why net/http: sends the status line; recorded in the ghost integer "status" of the writer
+//@   modifies ghostint("status", self)
+//@   ensures sent: ghostint("status", self) == statusCode
+//@ iface http.ResponseWriter.Header
+//@   why net/http: the response header map (the same map on every call)
+//@   pure
+//@   ensures map: !isnil(result)
+//@ extern (net/http.Header).Set
+//@   why net/http: sets a header field
+//@   modifies h[*]
+//@
+//@ func writeNotModified
+//@   props C18
+//@   requires nonnil: w != nil
+//@   modifies ghostint("status", w), icall("http.ResponseWriter.Header", w)[*]
+//@   ensures status: ghostint("status", w) == 304
+//@
+//@ func checkPreconditions
+//@   props C18 C17
+//@   requires nonnil: w != nil && r != nil
+//@   modifies ghostint("status", w), icall("http.ResponseWriter.Header", w)[*]
+//@   -- C18: If-Match fails unless the tag is current (an absent object never matches): 412
+//@   ensures if-match: call("(net/http.Header).Get", old(r.Header), "If-Match") != "" && !etagMatch(etag, call("(net/http.Header).Get", old(r.Header), "If-Match")) ==>
+//@        result && ghostint("status", w) == 412
+//@   -- C18: If-None-Match that matches: 304 for reads, 412 for writes
+//@   ensures if-none-match: !(call("(net/http.Header).Get", old(r.Header), "If-Match") != "" && !etagMatch(etag, call("(net/http.Header).Get", old(r.Header), "If-Match")))
+//@        && call("(net/http.Header).Get", old(r.Header), "If-None-Match") != "" && etagMatch(etag, call("(net/http.Header).Get", old(r.Header), "If-None-Match")) ==>
+//@        result && ghostint("status", w) == ((old(r.Method) == "GET" || old(r.Method) == "HEAD") ? 304 : 412)
+//@   -- C18: otherwise the request goes through and nothing is sent
+//@   ensures pass: !result ==> ghostint("status", w) == old(ghostint("status", w))
+//@        && !(call("(net/http.Header).Get", old(r.Header), "If-Match") != "" && !etagMatch(etag, call("(net/http.Header).Get", old(r.Header), "If-Match")))
+//@        && !(call("(net/http.Header).Get", old(r.Header), "If-None-Match") != "" && etagMatch(etag, call("(net/http.Header).Get", old(r.Header), "If-None-Match")))
+//@
+//@ -- ------------------------------------------------------------------ administrative API (C17, C12)
+//@ func splitPath
+//@   safe
+//@   props C12 C17
+//@   modifies nothing
+//@   ensures first-nonempty: result1 != "" ==> len(result0) + len(result1) + len(result2) == len(pth) - 1
+//@
+//@ func checkAdmin
+//@   trusted
+//@   why api.go: true only if isAdminOrExplicitPassword(groupname, "", credentials of r); on false a 401 with www-authenticate has been written (not yet verified here)
+//@   modifies *
+//@ func checkAdminOrExplicitPassword
+//@   trusted
+//@   why api.go: true only if isAdminOrExplicitPassword(groupname, user, credentials of r); on false a 401 has been written (not yet verified here)
+//@   modifies *
+//@ func apiCORS
+//@   trusted
+//@   why api.go: adds CORS headers; true exactly for OPTIONS (preflight), in which case only headers were written
+//@   modifies *
+//@
+//@ func apiHandler
+//@   safe
+//@   props C17 C12
+//@   requires nonnil: w != nil && r != nil && r.URL != nil
+//@   modifies *
+//@   -- C17: statistics are disclosed only to a server administrator
+//@   assert at call GetGroups admin: callresult("checkAdmin", 1)
+//@   assert at call checkAdmin root-scope: arg_groupname == ""
+//@
+//@ func apiGroupHandler
+//@   safe
+//@   props C17 C12
+//@   requires nonnil: w != nil && r != nil && r.URL != nil
+//@   modifies *
+//@   -- C17: every read or write of a group definition follows a successful administrator check for THAT group
+//@   assert at call GetDescriptionNames admin: callresult("checkAdmin", 1)
+//@   assert at call checkAdmin#1 root-scope: arg_groupname == ""
+//@   assert at call checkAdmin#2 this-group: arg_groupname == g
+//@   assert at call checkAdmin#3 this-group: arg_groupname == g
+//@   assert at call GetSanitisedDescription admin: callresult("checkAdmin", 3) && arg0 == g
+//@   assert at call GetDescriptionTag admin: callresult("checkAdmin", 3) && arg0 == g
+//@   assert at call UpdateDescription admin: callresult("checkAdmin", 3) && arg0 == g
+//@   assert at call DeleteDescription admin: callresult("checkAdmin", 3) && arg0 == g
+//@   -- C17: even the 304/412 answer (which discloses the tag) comes after authentication
+//@   assert at call checkPreconditions admin: callresult("checkAdmin", 3)
+//@   -- C18: the tag handed to the update is the one the preconditions were evaluated against
+//@   assert at call UpdateDescription same-tag: arg1 == etag$2
+//@   assert at call DeleteDescription same-tag: arg1 == etag$3
+//@
+//@ func usersHandler
+//@   safe
+//@   props C17 C12
+//@   requires nonnil: w != nil && r != nil && r.URL != nil
+//@   modifies *
+//@   assert at call checkAdmin this-group: arg_groupname == g
+//@   assert at call GetUsers admin: callresult("checkAdmin", 1) && arg0 == g
+//@   assert at call checkPreconditions admin: callresult("checkAdmin", 1)
+//@
+//@ func specialUserHandler
+//@   safe
+//@   props C17 C12
+//@   requires nonnil: w != nil && r != nil && r.URL != nil
+//@   modifies *
+//@   assert at call checkAdmin this-group: arg_groupname == g
+//@
+//@ func userHandler
+//@   safe
+//@   props C17 C12
+//@   requires nonnil: w != nil && r != nil && r.URL != nil
+//@   modifies *
+//@   assert at call checkAdmin this-group: arg_groupname == g
+//@   assert at call GetSanitisedUser admin: callresult("checkAdmin", 1) && arg0 == g
+//@   assert at call GetUserTag admin: callresult("checkAdmin", 1) && arg0 == g
+//@   assert at call UpdateUser admin: callresult("checkAdmin", 1) && arg0 == g && arg1 == user$1
+//@   assert at call DeleteUser admin: callresult("checkAdmin", 1) && arg0 == g && arg1 == user$1
+//@   assert at call checkPreconditions admin: callresult("checkAdmin", 1)
+//@   assert at call UpdateUser same-tag: arg3 == etag$2
+//@   assert at call DeleteUser same-tag: arg3 == etag$3
+//@
+//@ func passwordHandler
+//@   safe
+//@   props C17 C12
+//@   requires nonnil: w != nil && r != nil && r.URL != nil
+//@   modifies *
+//@   -- C17: a password is changed only for an administrator or for the user presenting the current password of THAT user
+//@   assert at call checkAdmin this-group: arg_groupname == g
+//@   assert at call checkAdminOrExplicitPassword this-user: arg_groupname == g && arg_user == user$1
+//@   assert at call SetUserPassword authorised: (wildcard ? callresult("checkAdmin", 1) : callresult("checkAdminOrExplicitPassword", 1)) && arg0 == g && arg1 == user$1
+//@
+//@ func keysHandler
+//@   safe
+//@   props C17 C12
+//@   requires nonnil: w != nil && r != nil && r.URL != nil
+//@   modifies *
+//@   assert at call checkAdmin this-group: arg_groupname == g
+//@   assert at call SetKeys admin: callresult("checkAdmin", 1) && arg0 == g
+//@
+//@ func tokensHandler
+//@   safe
+//@   props C17 C12
+//@   requires nonnil: w != nil && r != nil && r.URL != nil
+//@   modifies *
+//@   loopmodifies 1: full(toknames)
+//@   invariant loop 1 range: -1 <= rangeindex && rangeindex < len(tokens) && len(toknames) == len(tokens) && !isnil(toknames)
+//@   assert at call checkAdmin this-group: arg_groupname == g
+//@   assert at call GetDescription admin: callresult("checkAdmin", 1)
+//@   assert at call List admin: callresult("checkAdmin", 1) && arg0 == g
+//@   assert at call Get admin: callresult("checkAdmin", 1)
+//@   assert at call Update admin: callresult("checkAdmin", 1)
+//@   assert at call Delete admin: callresult("checkAdmin", 1)
+//@   assert at call checkPreconditions admin: callresult("checkAdmin", 1)
+//@   -- C17: tokens are created and replaced only inside the addressed group
+//@   assert at call Update#1 own-group: arg0.Group == g
+//@   assert at call Update#2 own-group: arg0.Group == g && arg0.Token == t
+//@   -- C17: a token of another group is neither shown nor deleted
+//@   assert at call sendJSON#2 own-group: old$1.Group == g
+//@   assert at call Delete own-group: old$3.Group == g && arg0 == t
